@@ -176,6 +176,9 @@ def check_decl(ctx, rng, flag, base, idx):
                 for mname, mv in members:
                     if mv == v and not (a == E[mname]):
                         viol("not-equal-to-same-class-member-with-that-value", member=mname)
+                    elif mv == v and hash(a) != hash(E[mname]):
+                        # equal objects hash equally, also when several members share the value
+                        viol("equal-members-hash-differently", member=mname)
                 try:
                     o = O(raw)
                     if a == o or o == a:
